@@ -2523,6 +2523,7 @@ class Executor(object):
                         check_inv(s3, k + 1, 'preserve')
                         for bt in linv.get('body_trace', []):
                             s3.iter_start_trace = n_trace0
+                            s3.iter_start_state = s0_snap
                             cnt_ = self.__dict__.setdefault('trace_yields', {})
                             nm_ = '%s.%s' % (tag.split('.')[-1], getattr(bt, '__name__', 'clause'))
                             cnt_.setdefault(nm_, 0)
